@@ -146,18 +146,23 @@ def gen_children(repo, args, lines):
 
 def gen_tx_fields(repo, args, lines):
     """For `impl Apply for Tx`: every field of `struct Tx` goes through the same stage.
-    args: pairs  <spec-fn-name>:<method-call-template with {f}>  e.g.  tx_args:sp_args(args)"""
+    Generated from the struct definition: <stage>_ok(x, t, arg) says that each field of t is the
+    stage's image of the same field of x; <stage>_err(x, arg) that some field's stage failed."""
     types = parse_types(repo)
     kind, fields = types['Tx']
-    out = []
-    for a in args:
-        nm, call = a.split(':', 1)
-        params = {'sp_args(args)': 'args: Map<String, ArgValue>', 'sp_inputs(args)': 'args: Map<String, Set<Utxo>>', 'sp_fees(fees)': 'fees: u64', 'sp_reduce()': ''}[call]
-        sig = ('x: Tx, t: Tx' + (', ' + params if params else ''))
-        out.append('// every one of the %d fields of `struct Tx` is mapped by the stage (generated from the struct definition)' % len(fields))
-        out.append('pub open spec fn %s_ok(%s) -> bool {\n%s\n}' % (nm, sig, '\n'.join('    &&& x.%s.%s == Ok::<_, Error>(t.%s)' % (f, call, f) for f, _ in fields)))
-        out.append('pub open spec fn %s_err(%s) -> bool {\n%s\n}' % (nm, 'x: Tx' + (', ' + params if params else ''), '\n'.join('    ||| x.%s.%s is Err' % (f, call) for f, _ in fields)))
-    out.append('pub open spec fn tx_params_union(x: Tx) -> Map<String, Type> {\n    %s\n}' % ('Map::<String, Type>::empty()' + ''.join('.union_prefer_right(x.%s.sp_params())' % f for f, _ in fields)))
+    out = ['// generated from `struct Tx` (%d fields): %s' % (len(fields), ', '.join(f for f, _ in fields))]
+    stages = [('args', 'args: BTreeMap<String, ArgValue>', 'rel_args(args, '), ('inputs', 'args: BTreeMap<String, HashSet<Utxo>>', 'rel_inputs(args, '),
+              ('fees', 'fees: u64', 'rel_fees(fees, '), ('reduce', '', 'rel_reduce(')]
+    for nm, params, call in stages:
+        p = (', ' + params) if params else ''
+        out.append('pub open spec fn tx_%s_ok(x: Tx, t: Tx%s) -> bool {\n%s\n}' % (nm, p, '\n'.join('    &&& x.%s.%sOk(t.%s))' % (f, call, f) for f, _ in fields)))
+        out.append('pub open spec fn tx_%s_err(x: Tx%s) -> bool {\n%s\n}' % (nm, p, '\n'.join('    ||| exists|e: Error| x.%s.%sErr(e))' % (f, call) for f, _ in fields)))
+    out.append('pub open spec fn tx_const(x: Tx) -> bool {\n%s\n}' % '\n'.join('    &&& x.%s.sp_const()' % f for f, _ in fields))
+    out.append('pub open spec fn tx_params(x: Tx) -> Map<String, Type> {\n    Map::<String, Type>::empty()%s\n}' % ''.join('\n        .union_prefer_right(x.%s.sp_params())' % f for f, _ in fields))
+    out.append('pub open spec fn tx_queries(x: Tx) -> Map<String, InputQuery> {\n    Map::<String, InputQuery>::empty()%s\n}' % ''.join('\n        .union_prefer_right(x.%s.sp_queries())' % f for f, _ in fields))
+    out.append('// the keys a template reports are exactly the keys some field reports (order-independent form)')
+    out.append('pub open spec fn tx_param_keys(x: Tx, k: String) -> bool {\n%s\n}' % '\n'.join('    ||| x.%s.sp_params().contains_key(k)' % f for f, _ in fields))
+    out.append('pub open spec fn tx_query_keys(x: Tx, k: String) -> bool {\n%s\n}' % '\n'.join('    ||| x.%s.sp_queries().contains_key(k)' % f for f, _ in fields))
     return '\n'.join(out) + '\n', {'fields': fields}
 
 
